@@ -9,6 +9,7 @@ mod fixedwindow;
 mod fsutil;
 mod jsonline;
 mod levelgate;
+mod fieldwidths;
 mod fragments;
 mod cfgformat;
 mod reloadlive;
@@ -36,6 +37,7 @@ fn main() {
         "routing" => routing::main(rest),
         "cfgbuild" => cfgbuild::main(rest),
         "fanout" => fanout::main(rest),
+        "fieldwidths" => fieldwidths::main(rest),
         "fragments" => fragments::main(rest),
         "cfgformat" => cfgformat::main(rest),
         "reloadlive" => reloadlive::main(rest),
